@@ -16,6 +16,7 @@ mod c11;
 mod c12;
 mod c07;
 mod c14;
+mod c16;
 mod c17;
 mod c19;
 mod c20;
@@ -62,6 +63,7 @@ fn main() {
         "C10" => c10::run(&o),
         "C11" => c11::run(&o),
         "C12" => c12::run(&o),
+        "C16" => c16::run(&o),
         "C17" => c17::run(&o),
         "C19" => c19::run(&o),
         "C07" => c07::run(&o),
